@@ -344,7 +344,27 @@ func Mutate(r *Rand, segs [][]byte) [][]byte {
 
 // Cyclic / deep templates: k selects the shape, n a parameter.
 func GenCyclic(r *Rand) [][]byte {
-	switch r.Intn(9) {
+	switch r.Intn(11) {
+	case 9, 10: // composite list whose tag claims more/less than the list pointer's word count,
+		// placed at the very end of its segment (an over-claim reaches past the segment)
+		ew := 1 + r.Intn(2) // element words (data)
+		n := 1 + r.Intn(3)  // elements according to the tag
+		delta := []int{-1, 0, 1, 1, 2}[r.Intn(5)]
+		pw := n*ew - delta // words according to the list pointer
+		if pw < 0 {
+			pw = 0
+		}
+		ws := []uint64{ListPtr(0, 7, uint32(pw)), StructPtr(int32(n), uint16(ew), 0)}
+		for k := 0; k < pw; k++ {
+			ws = append(ws, 0x0101010101010101*uint64(k+1))
+		}
+		if r.Intn(4) == 0 {
+			ws = append(ws, 0xeeeeeeeeeeeeeeee) // not at the end: the over-claim stays inside
+		}
+		if r.Bool() { // same list behind a struct root
+			ws = append([]uint64{StructPtr(0, 0, 1)}, ws...)
+		}
+		return [][]byte{Words(ws...)}
 	case 6: // large bit list (indices beyond 1<<22)
 		n := uint32(1<<22 + r.Intn(4096))
 		seg := make([]byte, 8+(n+7)/8+uint32(r.Intn(16)))
